@@ -410,7 +410,11 @@ func (desc *CounterStyleDescriptors) Validate() error {
 	if system == (CounterStyleSystem{}) {
 		system = CounterStyleSystem{System: "symbolic"}
 	}
-	if system.Extends == "" {
+	if system.Extends != "" {
+		if len(desc.Symbols) != 0 || len(desc.AdditiveSymbols) != 0 {
+			return fmt.Errorf("counter style extending %s must not contain symbols or additive-symbols", system.System)
+		}
+	} else {
 		switch system.System {
 		case "cyclic", "fixed", "symbolic":
 			if len(desc.Symbols) == 0 {
